@@ -136,7 +136,7 @@ def lake_build(targets, timeout=3000):
 
 
 def read_audit(pid):
-    p = os.path.join(LEAN, ".audit", pid + ".json")
+    p = os.path.join(LEAN, ".lake", "build", "audit", pid + ".json")
     if not os.path.exists(p):
         # olean up to date but audit file missing: re-elaborate the property file
         run(["lake", "env", "lean", "ALV/Props/%s.lean" % pid], cwd=LEAN, timeout=3000)
